@@ -187,4 +187,24 @@ var configs = map[string]propCfg{
 			"Non-trivial = a diagnostic with a fix or a recipe-matched quotation; distinct by checker x origin x message class x operand shape.",
 		Assumptions: []string{wellTyped, "a recipe that does not match is 'not checked', never a violation", "messages truncated by the rule engine (<...>) are skipped"},
 	},
+	"C10": {
+		Quick:    tierCfg{Shards: 8, Checks: 20, Limit: qLimit},
+		Thorough: tierCfg{Shards: 16, Checks: 600, Limit: tLimit},
+		Floor:    40,
+		Rule: "batches of 4-10 closed, executable kernel functions (85 kernels in 20 families: negated/compound comparisons, inc/dec shifting, range folding with decimal/octal/hex/binary/char literals, compound assignment on locals/elements/fields/maps, len/empty-string/bytes idioms, redundant slices, dereferences, lambdas incl. later mutation of the callee and method values, deferred lambdas, Sprint of strings/Stringers/nil Stringers/errors, swaps, switch true, Index->Contains and strings.Cut shapes, Yoda order, strings.Compare, *new(T), time helpers) with int/uint/float64/named float/string/[]byte/bool operands, pure or tracing. " +
+			"Every rewrite proposed by the equivalence-claiming checkers (machine fix or message recipe) is applied; original and rewritten function are compiled into one program and run over the complete cross product of the focus parameters' grids (int -3..12,63,64,65,100,1000; uint 0..12,64,100 without 0 where the rule subtracts; float64 NaN, +-Inf, +-0, +-0.5, +-1, 1.5, 2, 8, 9, 10; strings incl. empty/unicode; nil/empty/non-empty slices), other parameters varying; " +
+			"results, the order of traced side effects and recovered panics must be identical. Variants the compiler rejects are counted (C09's subject). " +
+			"Non-trivial = an applied rewrite; distinct by checker x operand shape of A and B x operand types.",
+		Assumptions: []string{"integer reasoning may assume no overflow: grid values are small", "the Go compiler and runtime are the semantic reference"},
+	},
+	"C12": {
+		Quick:    tierCfg{Shards: 8, Checks: 15, Limit: qLimit},
+		Thorough: tierCfg{Shards: 16, Checks: 400, Limit: tLimit},
+		Floor:    8,
+		Rule: "batches of 3-8 executable kernels for the definite-claim diagnostics: sloppyLen (always true/false; real and user-defined len; slices, strings, maps, channels), badCond (always false; constant, variable and impure left operands whose value changes between the two evaluations), offBy1 (always panics; slices, strings, byte slices, maps, user-defined len), " +
+			"nilValReturn (pointers, errors, slices, maps), dupSubExpr / dupArg (same value; pure operands, floats incl. NaN, calls with changing results), caseOrder (type switches over {nil, int, string, Stringer value and pointer, error, struct} with concrete-after-interface and nil-after-interface{} orders). " +
+			"Oracle: the flagged expression is instrumented in a copy of the function (claimBool / mustPanic / claimNil / sameL+sameR / unreach), compiled and run over the cross product of the focus parameters' grids; the claim must hold in every execution. " +
+			"Non-trivial = a definite-claim diagnostic; distinct by checker x side-condition class x message class.",
+		Assumptions: []string{"'suspicious' diagnostics are not definite claims and are not judged", "the Go runtime is the reference"},
+	},
 }
